@@ -38,8 +38,9 @@ def load(text, endian="<", align=False, compiled=True, ptr=None):
 
 
 def unwrap(v):
-    if type(v) is UnionProxy:
-        return object.__getattribute__(v, "__target__")
+    # structures of a union nested in a union are wrapped once per enclosing union
+    while type(v) is UnionProxy:
+        v = object.__getattribute__(v, "__target__")
     return v
 
 
